@@ -93,6 +93,7 @@ class World:
         self.used_paths = set()
         self.targets = set()
         self.yobjs = []
+        self.ybases = []
 
     def all_component_classes(self):
         seen = []
@@ -279,6 +280,7 @@ def apply_op(w, op):
             ns["yaml_loader"] = ls
             ns["yaml_dumper"] = D
         cls = type("Y%d" % w.fresh(), (yaml.YAMLObject,), ns)
+        w.ybases.append((cls, list(fan), D if D is not None else yaml.Dumper))
         if "yaml_tag" in ns and tag is not None:
             for c in fan:
                 w.model.register(c, "ctor", tag, cls.from_yaml)
@@ -288,6 +290,22 @@ def apply_op(w, op):
             w.targets.update(fan + [dd])
             w.yobjs.append(cls)
         return "class %s(YAMLObject) tag=%r loader=%r" % (cls.__name__, tag, [getattr(c, "__name__", c) for c in fan])
+    if kind == "yamlobject_sub":
+        # a subclass of an earlier YAMLObject class that declares only its tag: loader and dumper are inherited
+        _, bi, k = op
+        if not w.ybases:
+            return apply_op(w, ("yamlobject", ("default",), 0, 1))
+        base, fan, dd = w.ybases[bi % len(w.ybases)]
+        tag = ["!z0", "!z1", None][k % 3]
+        cls = type("Z%d" % w.fresh(), (base,), {"yaml_tag": tag})
+        w.ybases.append((cls, fan, dd))
+        if tag is not None:
+            for c in fan:
+                w.model.register(c, "ctor", tag, cls.from_yaml)
+            w.model.register(dd, "repr", cls, cls.to_yaml)
+            w.used_tags.add(tag)
+            w.targets.update(fan + [dd])
+        return "class %s(%s) tag=%r (loader/dumper inherited: %r / %s)" % (cls.__name__, base.__name__, tag, [c.__name__ for c in fan], dd.__name__)
     raise AssertionError(op)
 
 
@@ -360,7 +378,7 @@ def check_behaviour(w, failures, step, desc):
     evals = 0
     for cls in w.loaders:
         for tag in sorted(t for t in w.used_tags if t):
-            if tag.startswith("!y"):
+            if tag.startswith("!y") or tag.startswith("!z"):
                 continue
             evals += 1
             text = "!<%s> 5" % tag
@@ -494,6 +512,7 @@ def op_strategy():
         st.tuples(st.just("path"), i, k),
         st.tuples(st.just("mod"), st.sampled_from(["ctor", "mctor", "repr", "mrepr", "implicit"]), k, opt, opt),
         st.tuples(st.just("yamlobject"), spec, i, k),
+        st.tuples(st.just("yamlobject_sub"), i, k),
     )
 
 
@@ -506,7 +525,7 @@ def enum_short(shard, nshards, tier):
     import itertools
     alpha = [("subclass", 0, 1, None), ("subclass", 0, 15, None), ("subclass", 1, 1, None), ("ctor", 1, 0), ("ctor", 15, 0), ("mctor", 15, 0),
              ("repr", 1, 0), ("repr", 8, 0), ("mrepr", 8, 0), ("implicit", 1, 0, 0), ("implicit", 15, 1, 1), ("implicit", 17, 0, 2),
-             ("mod", "ctor", 0, None, None), ("mod", "implicit", 0, None, None), ("yamlobject", ("one", 15), 8, 1), ("path", 15, 0)]
+             ("mod", "ctor", 0, None, None), ("mod", "implicit", 0, None, None), ("yamlobject", ("one", 15), 8, 1), ("path", 15, 0), ("yamlobject_sub", 0, 0)]
     n = 0
     for length in range(1, (3 if tier == "thorough" else 2) + 1):
         for h in itertools.product(alpha, repeat=length):
@@ -521,4 +540,4 @@ def arms(tier):
 
 
 REQUIRED_CLASSES = ["op:subclass", "op:ctor", "op:mctor", "op:repr", "op:mrepr", "op:implicit", "op:path", "op:mod_ctor", "op:mod_implicit",
-                    "op:yamlobject", "target-with-base-and-derived", "diamond"]
+                    "op:yamlobject", "op:yamlobject_sub", "target-with-base-and-derived", "diamond"]
